@@ -21,6 +21,7 @@ class World:
         self.calls = {}
         self.par = {"c": 1.0, "d": 10.0, "e": 3.0}
         self.frozen = {}
+        self.seen = {}
         self.defs = {}
         self.g = {}
         g = self.g
@@ -73,7 +74,30 @@ class World:
             raise RuntimeError("no alternative")
         return kind(*[self.val(x) for x in deps])
 
+    def visit(self, k):
+        """what a read of k evaluates: k and, recursively, the inputs it needs (not below a frozen node; a fallback stops at its first working
+        alternative).  `seen[x]` = value of x at its last evaluation = what x holds if it is frozen later without being read again."""
+        if k in self.par or k in self.frozen:
+            return
+        kind, deps = self.defs[k]
+        if kind == "fallback":
+            for x in deps:
+                self.visit(x)
+                try:
+                    self.val(x)
+                    break
+                except Boom:
+                    continue
+        else:
+            for x in deps:
+                self.visit(x)
+        try:
+            self.seen[k] = self.val(k)
+        except (Boom, RuntimeError):
+            self.seen.pop(k, None)
+
     def read(self, k):
+        self.visit(k)
         try:
             v = self.g[k].value
             return tuple(float(x) for x in v) if isinstance(v, (tuple, np.ndarray)) else float(v)
@@ -91,7 +115,7 @@ class World:
 READ = ["n", "m", "p", "a", "t", "u", "fb", "arr", "gq"]
 OPS = [("set", "c", 2.0), ("set", "c", -1.0), ("set", "c", 4.0), ("set", "d", 20.0), ("set", "e", 7.0), ("read", "p"), ("read", "n"), ("read", "a"), ("read", "u"), ("read", "fb"), ("read", "arr"),
        ("freeze", "n"), ("unfreeze", "n"), ("freeze", "p"), ("unfreeze", "p"), ("freeze", "t"), ("unfreeze", "t"), ("setfunc", "n"), ("setitem", "t"), ("setitem_arr", "arr"), ("replace", "d"), ("replace_child", "p"),
-       ("add_child", "m"), ("freeze_stale", "m"), ("unfreeze", "m")]
+       ("add_child", "m"), ("freeze_stale", "m"), ("unfreeze", "m"), ("freeze_stale", "n")]
 
 
 def apply(w, op):
@@ -109,9 +133,9 @@ def apply(w, op):
             return
         g[k].freeze()
     elif kind == "freeze_stale":          # freeze without reading first: the snapshot is whatever the cache holds
-        if g[k].stale:
-            return                        # snapshot would be an undefined stale cache: outside the property's statement
-        w.frozen[k] = w.val(k); g[k].freeze()
+        if k not in w.seen:
+            return                        # never evaluated: there is no 'value it had'
+        w.frozen[k] = w.seen[k]; g[k].freeze()          # a frozen node returns the value it had when it was frozen: the one of its last evaluation
     elif kind == "unfreeze":
         w.frozen.pop(k, None); g[k].unfreeze()
     elif kind == "setfunc":
@@ -145,6 +169,13 @@ def gen_hist(tier, seed):
             if ln == L and L == 4 and (seq[0] % 3 == 1):      # thin out the longest layer deterministically
                 continue
             yield {"history": [list(OPS[q]) for q in seq]}
+    # deeper histories behind fixed prefixes (a node frozen while stale, a frozen node with a replaced function, ...): prefix + every sequence of <= 2 operations
+    PREFIXES = [[("read", "p"), ("set", "c", 2.0), ("freeze_stale", "n")], [("read", "u"), ("set", "d", 20.0), ("freeze_stale", "m"), ("read", "p")], [("read", "p"), ("freeze", "n"), ("setfunc", "n")],
+                [("read", "arr"), ("set", "c", 4.0), ("freeze_stale", "n"), ("read", "arr")]]
+    for pre in PREFIXES:
+        for ln in range(0, 3):
+            for seq in itertools.product(range(len(OPS)), repeat=ln):
+                yield {"history": [list(o) for o in pre] + [list(OPS[q]) for q in seq]}
 
 
 @R.oracle("history_vs_from_scratch", gen_hist, obligation="")
